@@ -149,5 +149,83 @@ func serveFacts(repo string, w *bytes.Buffer) error {
 	}
 	w.WriteString("]\n\n")
 	defStrings(w, "`WG.Wait()` calls in the body of `serve()` (all before the deferred `internalClose`)", "serveWaits", waits)
+	return connsFacts(repo, w)
+}
+
+// connsFacts: `srv.conns` is the set Stop() takes its snapshot of; Stop waits for the `closed` channel of every connection in
+// the snapshot. A connection that leaves the set before its `closed` channel is closed can be missed by a Stop that starts in
+// between. Fact: every statement `delete(X.conns, …)` of package server, with the function it is in and 1 when it is a top-level
+// statement of that function that comes after a top-level `close(Y.closed)`, else 0.
+func connsFacts(repo string, w *bytes.Buffer) error {
+	files, err := filepath.Glob(filepath.Join(repo, "server", "*.go"))
+	if err != nil {
+		return err
+	}
+	fset := token.NewFileSet()
+	type del struct {
+		fn   string
+		code int
+	}
+	var dels []del
+	isCall := func(s ast.Stmt, name, suffix string) bool {
+		es, ok := s.(*ast.ExprStmt)
+		if !ok {
+			return false
+		}
+		c, ok := es.X.(*ast.CallExpr)
+		if !ok || len(c.Args) == 0 {
+			return false
+		}
+		id, ok := c.Fun.(*ast.Ident)
+		if !ok || id.Name != name {
+			return false
+		}
+		p := selPath(c.Args[0])
+		return len(p) > len(suffix) && p[len(p)-len(suffix):] == suffix
+	}
+	for _, fn := range files {
+		if len(fn) > 8 && fn[len(fn)-8:] == "_test.go" {
+			continue
+		}
+		f, err := parser.ParseFile(fset, fn, nil, 0)
+		if err != nil {
+			return err
+		}
+		for _, d := range f.Decls {
+			fd, ok := d.(*ast.FuncDecl)
+			if !ok || fd.Body == nil {
+				continue
+			}
+			top := map[ast.Stmt]bool{}
+			closedSeen := false
+			for _, st := range fd.Body.List {
+				if isCall(st, "close", ".closed") {
+					closedSeen = true
+				}
+				if isCall(st, "delete", ".conns") && closedSeen {
+					top[st] = true
+				}
+			}
+			ast.Inspect(fd.Body, func(n ast.Node) bool {
+				st, ok := n.(ast.Stmt)
+				if ok && isCall(st, "delete", ".conns") {
+					code := 0
+					if top[st] {
+						code = 1
+					}
+					dels = append(dels, del{fd.Name.Name, code})
+				}
+				return true
+			})
+		}
+	}
+	w.WriteString("/-- every `delete(X.conns, …)` of package server: (function, 1 = top-level statement after a top-level `close(Y.closed)`) -/\ndef connsDeletes : List (String × Nat) :=\n  [")
+	for i, d := range dels {
+		if i > 0 {
+			w.WriteString(", ")
+		}
+		fmt.Fprintf(w, "(%q, %d)", d.fn, d.code)
+	}
+	w.WriteString("]\n\n")
 	return nil
 }
